@@ -128,6 +128,14 @@ def _apply(obj, op, X, A, is_list):
         return ["int", len(obj)]
     if k == "iter":
         return ["list", seq(iter(obj))]
+    if k == "eq":
+        if is_list:
+            return ["int", int(list(obj) == list(op["other"]))]       # the reference list holds tick counts
+        other = [X.from_ticks(t) for t in op["other"]]
+        eq, ne = obj == A(other), obj != A(other)
+        if bool(eq) == bool(ne):
+            raise RuntimeError("== and != agree")
+        return ["int", int(bool(eq))]
     raise AssertionError(k)
 
 
@@ -163,6 +171,10 @@ def run_impl(c):
     for op in c["ops"]:
         pre = [x.ticks for x in arr]
         assert pre == lst or not c.get("sync", True), (pre, lst)
+        if op["op"] == "eq" and isinstance(op["other"], str):
+            first = pre[0] if pre else 5
+            op = {"op": "eq", "other": {"same": list(pre), "prefix": pre[:-1], "rep1": [first], "rep3": [first] * 3, "empty": [],
+                                        "other": [7] * len(pre)}[op["other"]]}
         r = vf.try_impl(lambda: _apply(arr, op, X, A, False))
         post = [x.ticks for x in arr]
         lres = None
@@ -176,7 +188,7 @@ def run_impl(c):
         for got, snap in slices:
             if [x.ticks for x in got] != snap:
                 r = {"exc": "OtherError"}  # a slice result aliased its parent
-        steps.append({"pre": pre, "res": r, "post": post, "list": lres})
+        steps.append({"pre": pre, "res": r, "post": post, "list": lres, "op": op})
         lst = post
     return {"steps": steps}
 
@@ -229,6 +241,8 @@ def _opc(op):
         return "(ORemove %s)" % _valc(op["v"])
     if k in ("index", "count"):
         return "(%s %s)" % ("OIndex" if k == "index" else "OCount", _valc(op["v"]))
+    if k == "eq":
+        return "(OEq %s)" % vf.listc(op["other"])
     return {"reverse": "OReverse", "clear": "OClear", "len": "OLen", "iter": "OIter"}[k]
 
 
@@ -248,7 +262,7 @@ def _resc(r):
 
 def to_coq(c, r):
     obs = []
-    for op, st in zip(c["ops"], r["steps"]):
+    for op, st in zip([st.get("op", op) for op, st in zip(c["ops"], r["steps"])], r["steps"]):
         lst = "None" if st["list"] is None else "(Some (%s, %s))" % (_resc(st["list"]["r"]), vf.listc(st["list"]["post"]))
         obs.append("{| o_pre := %s; o_op := %s; o_res := %s; o_post := %s; o_list := %s |}"
                    % (vf.listc(st["pre"]), _opc(op), _resc(st["res"]), vf.listc(st["post"]), lst))
@@ -299,7 +313,10 @@ def _elem(rng, pool):
 
 def _rand_op(rng, n, pool):
     k = rng.choice(["get", "get", "set", "setslice", "setslice", "del", "insert", "append", "extend", "iadd", "pop", "remove",
-                    "reverse", "clear", "index", "count", "len", "iter"])
+                    "reverse", "clear", "index", "count", "len", "iter", "eq"])
+    if k == "eq":
+        # == against the same content, a prefix, a repetition of one element, the empty array, other content
+        return {"op": k, "other": rng.choice(["same", "prefix", "rep1", "empty", "rep3", "other"])}
     ri = lambda: rng.choice([None, None] + list(range(-n - 2, n + 3)))
     v = lambda: _elem(rng, pool) if rng.random() < 0.92 else ["bad", rng.choice(["str", "int", "none", "other"])]
     if k in ("get", "del"):
